@@ -358,8 +358,13 @@ void DnsRequest::onUdpRecv(const void *data_ptr, size_t data_size, const SockAdd
             result.status = Result::Status::kFail;
         } else {
             //! 如果是服务器的问题，则略过当前数据，等待其它服务器的数据
-            ++req->response_count;
-            if (req->response_count < dns_ip_vec_.size())
+            //! 同一个服务器重复回复的失败只算一次，否则其它服务器还没回复就被当成全部失败了
+            IPAddress from_ip;
+            uint16_t from_port = 0;
+            if (from.get(from_ip, from_port))
+                req->fail_dns_ips.insert(from_ip);
+
+            if (req->fail_dns_ips.size() < dns_ip_vec_.size())
                 return;
             result.status = Result::Status::kAllDnsFail;
         }
@@ -369,7 +374,6 @@ void DnsRequest::onUdpRecv(const void *data_ptr, size_t data_size, const SockAdd
         req->cb(result);
 
     deleteRequest(req_id);
-    (void)from;
 }
 
 void DnsRequest::onRequestTimeout(ReqId req_id)
